@@ -1,10 +1,12 @@
 (* C10  Legal set-firings, superstables and parking functions match their definitions.
    General theorems: legality, superstability (the enumeration of all subsets is complete and agrees with Dhar's burn), the partial order,
-   the parking-function generator. The classical counting identities (matrix-tree theorem, (n+1)^(n-1), superstables of K_(n+1) = shifted
-   parking functions) are proved on the stated bounded domains only, by kernel computation over the complete finite domain (names end in _bounded). *)
+   the parking-function generator; for EVERY n the superstables of K_(n+1) are exactly the parking functions of length n shifted down by one, and the
+   sorted form of the parking predicate (as implemented) is the counting form (Link/ParkingLink.v). The two classical counting identities
+   (matrix-tree theorem, (n+1)^(n-1)) are proved on the stated bounded domains only, by kernel computation over the complete finite domain
+   (names end in _bounded). *)
 From Coq Require Import ZArith List Bool.
 Import ListNotations.
-From CF Require Import ZSum ListAux Defs Core Machines Config ConfigLink.
+From CF Require Import ZSum ListAux Defs Core Machines Config ConfigLink BoundsLink ParkingLink.
 Open Scope Z_scope.
 
 Theorem C10_legal : forall g, wfb g = true -> forall D S, (forall v, In v S -> In v (Vg g)) ->
@@ -33,8 +35,22 @@ Theorem C10_generate_parking : forall n a, (0 < n)%nat ->
 Proof. exact generate_parking_spec. Qed.
 Print Assumptions C10_generate_parking.
 
-(* ---- bounded identities (complete finite domains, kernel computation) ---- *)
+(* ---- K_(n+1) and parking functions, every n ---- *)
 Definition complete_graph (n : nat) : graph := tab n (fun v => tab n (fun w => if Nat.eqb v w then 0 else 1)).
+(* n = k + 1 >= 1 non-sink vertices, sink 0, c ANY list of n integers: superstable (by enumeration of all subsets, as implemented, and by the burn)
+   iff c shifted up by one is a parking function *)
+Theorem C10_superstables_of_Kn_are_parking_functions : forall k c, length c = S k ->
+  superstable_enum (complete_graph (S (S k))) 0%nat (0 :: c) = is_parking (map (fun x => x + 1) c) /\
+  reduced_b (complete_graph (S (S k))) 0%nat (0 :: c) = is_parking (map (fun x => x + 1) c).
+Proof. intros k c Hlen. pose proof (Kn_superstables_are_parking k c Hlen) as H. split; [|exact H].
+  rewrite <- H. apply (superstable_enum_eq_burn (Kn k) (Kn_wf k)). apply in_VKn. apply Nat.lt_0_succ. Qed.
+Print Assumptions C10_superstables_of_Kn_are_parking_functions.
+(* sorted form (as implemented) = counting form #{i | a_i <= j} >= j for j = 1..n, every sequence of every length *)
+Theorem C10_parking_predicate_forms_agree : forall a, a <> [] -> is_parking a = is_parking_count a.
+Proof. exact parking_forms_agree. Qed.
+Print Assumptions C10_parking_predicate_forms_agree.
+
+(* ---- bounded identities (complete finite domains, kernel computation) ---- *)
 (* K_(n+1), n <= 4, sink 0: a configuration in the box [0..n]^n is superstable iff shifting it up by one gives a parking function *)
 Theorem C10_superstables_of_Kn_are_parking_functions_bounded : forallb (fun n =>
   forallb (fun c => Bool.eqb (reduced_b (complete_graph (S n)) 0%nat (0 :: c)) (is_parking (map (fun x => x + 1) c)))
